@@ -754,7 +754,13 @@ func (e *Evaluator) evalCallExp(
 			fun := e.ctx.CustomFunc.Arr[funcName]
 			nativeElems := e.objectsToNativeType(receiverObj.(*object.Array).Elements)
 			res := fun(nativeElems, nativeArgs...)
-			return object.NativeToObject(res)
+
+			obj := object.NativeToObject(res)
+			if obj == nil {
+				return e.newError(node, fail.ErrUnsupportedType, res)
+			}
+
+			return obj
 		case object.INT_OBJ:
 			fun := e.ctx.CustomFunc.Int[funcName]
 			res := fun(int(receiverObj.(*object.Int).Value), nativeArgs...)
